@@ -70,6 +70,10 @@ type c21In struct {
 	Limit    int        `json:"limit"`
 	Ops      []c21Op    `json:"ops,omitempty"`
 	Faults   []c21Fault `json:"faults,omitempty"`
+	// Hist: calls completed on the SAME HttpClient before the stream is opened:
+	// "unary" (u_int, accepts {result:int64}), "header" (prod_h, accepts {h:int64}
+	// and {v:int64}), "producer" (prod, accepts {v:int64}).
+	Hist []string `json:"hist,omitempty"`
 }
 
 // ---- observables ------------------------------------------------------------
@@ -125,6 +129,10 @@ type c21Proxy struct {
 	labels map[string]int
 	cur    *c21OpRec
 	broken string // set when the harness itself cannot interpret something
+	// passthru: history calls are forwarded untouched, unrecorded and unlabelled
+	passthru bool
+	// schemas a drift fault can aim at: ones this client may have accepted earlier
+	unarySchema *arrow.Schema
 }
 
 func (p *c21Proxy) label(tok string) int {
@@ -239,9 +247,18 @@ func c21Reencode(schema *arrow.Schema, recs []arrow.RecordBatch, edit func(keys,
 	return buf.Bytes()
 }
 
-func c21Drift(s *arrow.Schema, variant int) *arrow.Schema {
+// c21Drift rewrites the wire schema. Variants 3 and 4 (mod 5) aim at a schema that
+// the same client accepts for ANOTHER declaration (the unary result schema, the
+// stream-header schema): whether the client has in fact seen it depends on Hist.
+func c21Drift(s *arrow.Schema, variant int, unary *arrow.Schema) *arrow.Schema {
 	fields := append([]arrow.Field(nil), s.Fields()...)
 	md := s.Metadata()
+	if len(fields) == 1 && variant%5 == 3 && unary != nil && !unary.Equal(s) {
+		return unary
+	}
+	if len(fields) == 1 && variant%5 == 4 {
+		return HdrInt{}.ArrowSchema()
+	}
 	switch {
 	case len(fields) == 0 || variant%3 == 0:
 		m := arrow.NewMetadata([]string{"drift"}, []string{"1"})
@@ -263,6 +280,17 @@ func c21Gzip(b []byte) []byte {
 }
 
 func (p *c21Proxy) RoundTrip(req *http.Request) (*http.Response, error) {
+	if p.passthru {
+		b, _ := io.ReadAll(req.Body)
+		req.Body.Close()
+		sreq := httptest.NewRequest(http.MethodPost, req.URL.Path, bytes.NewReader(b))
+		sreq.Header = req.Header.Clone()
+		rec := httptest.NewRecorder()
+		p.h.ServeHTTP(rec, sreq)
+		res := rec.Result()
+		res.Request = req
+		return res, nil
+	}
 	var f c21Fault
 	if p.n < len(p.faults) {
 		f = p.faults[p.n]
@@ -409,7 +437,7 @@ func (p *c21Proxy) RoundTrip(req *http.Request) (*http.Response, error) {
 					return k2, v2, true
 				})
 			case 7:
-				body = c21Reencode(c21Drift(schema, f.Var), recs, nil)
+				body = c21Reencode(c21Drift(schema, f.Var, p.unarySchema), recs, nil)
 			case 8:
 				full := c21Reencode(schema, recs, nil)
 				at := 0
@@ -545,6 +573,15 @@ func c21Run(in c21In) CaseOut {
 		}
 		script.Turns = append(script.Turns, ts)
 	}
+	for _, h := range in.Hist {
+		one := int64(1)
+		switch h {
+		case "header":
+			sf.PushStream(StreamScript{Header: &one, Turns: []TurnScript{{Act: "emit_finish", Value: 5}}})
+		case "producer":
+			sf.PushStream(StreamScript{Turns: []TurnScript{{Act: "emit_finish", Value: 6}}})
+		}
+	}
 	sf.PushStream(script)
 
 	px := &c21Proxy{h: hs, faults: in.Faults, labels: map[string]int{}}
@@ -578,6 +615,59 @@ func c21Run(in c21In) CaseOut {
 		}
 		allocMark = ms.TotalAlloc
 	}
+	// ---- history: earlier calls on the same client ----
+	px.passthru = true
+	dummy := c21OpRec{}
+	px.cur = &dummy
+	histOK := []bool{}
+	drain := func(hst *vgirpc.HttpClientStream, e error) bool {
+		if e != nil {
+			return false
+		}
+		defer hst.Close()
+		if h := hst.Header(); h != nil {
+			h.Release()
+		}
+		for k := 0; k < 8; k++ {
+			b, ok, e := hst.Next(ctx)
+			if e != nil {
+				return false
+			}
+			if !ok {
+				return true
+			}
+			b.Release()
+		}
+		return false
+	}
+	{ // the unary result schema, learnt from a dynamic (undeclared) call on a throw-away client
+		tmp, _ := vgirpc.NewHttpClient("http://c21.invalid", vgirpc.WithClientHTTPClient(&http.Client{Transport: px}))
+		if r, e := tmp.CallUnary(ctx, "u_int", params, nil); e == nil {
+			px.unarySchema = r.Batch.Schema()
+			r.Release()
+		} else {
+			px.broken = "unary probe failed: " + e.Error()
+		}
+		tmp.Close()
+	}
+	for _, h := range in.Hist {
+		switch h {
+		case "unary":
+			r, e := client.CallUnary(ctx, "u_int", params, px.unarySchema)
+			if e == nil {
+				r.Release()
+			}
+			histOK = append(histOK, e == nil && px.unarySchema != nil)
+		case "header":
+			histOK = append(histOK, drain(client.OpenProducer(ctx, "prod_h", params,
+				vgirpc.ClientStreamSchema{Output: outSchemaV, Header: HdrInt{}.ArrowSchema()})))
+		default:
+			histOK = append(histOK, drain(client.OpenProducer(ctx, "prod", params, vgirpc.ClientStreamSchema{Output: outSchemaV})))
+		}
+	}
+	px.passthru = false
+	runtime.ReadMemStats(&ms)
+	allocMark = ms.TotalAlloc
 	begin()
 	var st *vgirpc.HttpClientStream
 	if in.Exchange {
@@ -631,6 +721,26 @@ func c21Run(in c21In) CaseOut {
 	if in.Init != "ok" {
 		tags["init-"+in.Init] = true
 	}
+	for _, h := range in.Hist {
+		tags["hist-"+h] = true
+	}
+	for _, f := range in.Faults {
+		if f.Body == 7 && f.Net == 0 {
+			switch f.Var % 5 {
+			case 3, 4:
+				want := map[int]string{3: "unary", 4: "header"}[f.Var%5]
+				seenBefore := false
+				for _, h := range in.Hist {
+					seenBefore = seenBefore || h == want
+				}
+				if seenBefore {
+					tags["drift-to-schema-accepted-earlier"] = true
+				} else {
+					tags["drift-to-foreign-schema-never-seen"] = true
+				}
+			}
+		}
+	}
 	nExPosts := 0
 	poisoned := false
 	for i, r := range recs {
@@ -673,8 +783,8 @@ func c21Run(in c21In) CaseOut {
 	}
 	sort.Strings(tagl)
 
-	return CaseOut{Coq: Pair(c21CoqInput(in), ListOf(recs, c21CoqOp)), Tags: tagl,
-		Nontrivial: nExPosts > 0 && len(in.Ops) > 0, Obs: map[string]any{"ops": recs, "broken": px.broken, "trace": sf.Trace}}
+	return CaseOut{Coq: Pair(c21CoqInput(in), Pair(ListOf(histOK, Bool), ListOf(recs, c21CoqOp))), Tags: tagl,
+		Nontrivial: nExPosts > 0 && len(in.Ops) > 0, Obs: map[string]any{"hist_ok": histOK, "ops": recs, "broken": px.broken, "trace": sf.Trace}}
 }
 
 // ---- Coq rendering ----------------------------------------------------------------
@@ -716,7 +826,19 @@ func c21CoqInput(in c21In) string {
 	case "nil":
 		init = "C21.InitNil"
 	}
-	return App("C21.Build_input", Bool(in.Exchange), c21LogList(in.InitLogs), init,
+	return App("C21.Build_input", ListOf(in.Hist, func(h string) string {
+		switch h {
+		case "unary":
+			return "C21.HUnary"
+		case "header":
+			return "C21.HHeader"
+		}
+		return "C21.HProducer"
+	}), c21CoqSInput(in, init))
+}
+
+func c21CoqSInput(in c21In, init string) string {
+	return App("C21.Build_sinput", Bool(in.Exchange), c21LogList(in.InitLogs), init,
 		ListOf(in.Turns, func(t c21Turn) string {
 			return App("C21.Build_turn", c21LogList(t.Logs), c21CoqAct(t), Z(t.Val), c21KV(t.Meta))
 		}),
@@ -799,7 +921,7 @@ func c21GenLogs(r *rand.Rand) []int {
 }
 
 func c21GenFault(r *rand.Rand) c21Fault {
-	f := c21Fault{Var: r.Intn(12)}
+	f := c21Fault{Var: r.Intn(60)}
 	statuses := []int{199, 200, 204, 299, 300, 400, 401, 404, 413, 429, 500, 502, 503}
 	switch r.Intn(14) {
 	case 0:
@@ -835,13 +957,18 @@ func c21GenFault(r *rand.Rand) c21Fault {
 			f.Net = 2
 		}
 	default: // transparent re-encoding only
-		f.Var = 4 + r.Intn(8)
+		f.Var = 4 + r.Intn(56)
 	}
 	return f
 }
 
 func c21GenCase(r *rand.Rand, malformed bool) c21In {
 	in := c21In{Exchange: r.Intn(5) < 3, Init: "ok", InitLogs: c21GenLogs(r)}
+	if r.Intn(3) == 0 {
+		for k := 1 + r.Intn(2); k > 0; k-- {
+			in.Hist = append(in.Hist, []string{"unary", "header", "producer", "unary"}[r.Intn(4)])
+		}
+	}
 	if r.Intn(12) == 0 {
 		in.Init = []string{"raise", "panic", "nil"}[r.Intn(3)]
 		in.InitTy = c21Types[r.Intn(len(c21Types))]
@@ -984,6 +1111,28 @@ func c21Gen(r *rand.Rand, n int, tier string) []c21In {
 		out = append(out, c21In{Exchange: false, Init: "ok", Limit: lim, Turns: ts, Ops: ops})
 		out = append(out, c21In{Exchange: false, Init: "ok", Limit: lim, Turns: ts, Ops: ops, Faults: []c21Fault{{}, {Body: 3}, {}, {Net: 2}}})
 	}
+	// client histories: an earlier call made this client accept schema S1 for another
+	// declaration; then a response of the stream is drifted to exactly S1 (Var 3: the
+	// unary result schema, Var 4: the stream-header schema), at init / turn 1 / turn 2;
+	// the same drift with no or an unrelated history; a history with a never-seen drift.
+	for _, hv := range []struct {
+		hist []string
+		v    int
+	}{{[]string{"unary"}, 3}, {[]string{"header"}, 4}, {[]string{"unary", "header", "producer"}, 3}, {nil, 3}, {nil, 4},
+		{[]string{"producer"}, 3}, {[]string{"header"}, 3}, {[]string{"unary"}, 1}} {
+		for _, at := range []int{1, 2, 0} {
+			fs := make([]c21Fault, at+1)
+			fs[at] = c21Fault{Body: 7, Var: hv.v}
+			out = append(out, c21In{Hist: hv.hist, Exchange: false, Init: "ok", Limit: 1,
+				Turns: []c21Turn{emit(10), emit(20), {Act: "emit_finish", Val: 30}}, Ops: []c21Op{nx, nx, nx, nx}, Faults: fs})
+			out = append(out, c21In{Hist: hv.hist, Exchange: true, Init: "ok",
+				Turns: []c21Turn{emit(10), emit(20), emit(30)}, Ops: []c21Op{ex(1), ex(2), ex(3)}, Faults: fs})
+		}
+	}
+	for _, h := range [][]string{{"unary"}, {"header"}, {"producer"}, {"unary", "unary", "header"}} { // histories alone change nothing
+		out = append(out, c21In{Hist: h, Exchange: true, Init: "ok", Turns: []c21Turn{emit(1), emit(2)}, Ops: []c21Op{ex(1), ex(2), {K: "cancel"}}})
+		out = append(out, c21In{Hist: h, Exchange: false, Init: "ok", Limit: 2, Turns: []c21Turn{emit(1), emit(2), emit(3)}, Ops: []c21Op{nx, nx, nx, nx}})
+	}
 	// server exceptions at init and at each turn, no faults
 	for _, ty := range []string{"ValueError", "TypeError"} {
 		out = append(out, c21In{Exchange: true, Init: "raise", InitTy: ty, Ops: []c21Op{ex(1)}})
@@ -1008,6 +1157,6 @@ func c21Gen(r *rand.Rand, n int, tier string) []c21In {
 }
 
 func init() {
-	Register("C21", "boundary block: every fault kind (and sub-variant) injected at the 1st / 2nd exchange POST and at init of a 3-turn exchange stream and a 3-response producer stream, server exceptions at init and mid-stream; then random scripts (exchange 60% / producer 40%, logs, user metadata, raise/panic/noemit turns, batch limits 0..3), random client op sequences (Exchange incl. wrong-schema input, Next, Cancel, Close, wrong-kind calls) and fault schedules (none / one or two faults at random POSTs / a malformed stream with a fault on about half of the POSTs, incl. combined status+encoding/oversize/body faults); non-trivial = at least one client op and at least one continuation POST reached the proxy; distinct = distinct input JSON",
+	Register("C21", "client histories (0..3 earlier unary / header-producer / producer calls completed on the same HttpClient, then schema drift aimed at a schema accepted earlier for another declaration vs never seen); boundary block: every fault kind (and sub-variant) injected at the 1st / 2nd exchange POST and at init of a 3-turn exchange stream and a 3-response producer stream, server exceptions at init and mid-stream; then random scripts (exchange 60% / producer 40%, logs, user metadata, raise/panic/noemit turns, batch limits 0..3), random client op sequences (Exchange incl. wrong-schema input, Next, Cancel, Close, wrong-kind calls) and fault schedules (none / one or two faults at random POSTs / a malformed stream with a fault on about half of the POSTs, incl. combined status+encoding/oversize/body faults); non-trivial = at least one client op and at least one continuation POST reached the proxy; distinct = distinct input JSON",
 		c21Gen, c21Run)
 }
